@@ -7,7 +7,7 @@
    is a correspondence-level check, not yet a theorem for all circuits. *)
 From Coq Require Import ZArith QArith Bool List.
 From PV Require Import Base.Num Base.Outcome Circuit.ElemState Circuit.Tree Circuit.Token Circuit.Parser Circuit.Parser_facts.
-From PV Require Import Circuit.Registry Circuit.Printer Circuit.Token_decode Circuit.Printer_lex Circuit.Parser_basic Circuit.Parser_mono Circuit.Token_ws Circuit.Parser_ws Circuit.Parser_implicit gen.Classes_gen.
+From PV Require Import Circuit.Registry Circuit.Printer Circuit.Token_decode Circuit.Printer_lex Circuit.Parser_basic Circuit.Parser_mono Circuit.Token_ws Circuit.Parser_ws Circuit.Parser_implicit Circuit.ElemProp Circuit.ElemState_facts Circuit.Parser_ext gen.Classes_gen.
 Import ListNotations.
 
 (* A container's sub-circuit — in either written form — and a whole parameter block consume only what follows
@@ -104,7 +104,50 @@ Theorem C03_basic_round_trip_applies :
 Proof. vm_compute. repeat split. Qed.
 Print Assumptions C03_basic_round_trip_applies.
 
-(* NOT YET PROVED for the extended syntax (numbers, labels, limits, sub-circuits; full statements kept visible):
+(* ---- the EXTENDED syntax (token level) -----------------------------------------------------------------------------------
+   For EVERY tree of elements of classes without sub-circuits (22 of the 23 built-in classes; the general transmission line is the
+   exception) whose states the parameter API can reach and print — [elem_okb]: keys of the class in order, lower < upper, no NaN,
+   label accepted by set_label, finite value within its limits — take the tokens of the printed form to_string(d): for every element
+   the symbol, "{", every parameter as  key = value[F] / lower / upper  (a limit is a number or `inf`), separated by commas, the label
+   after ":" when there is one, "}"; brackets around the connections.  Then the parser accepts these tokens and returns the specified
+   tree [xpconn]: the same elements — class, label, values, limits and fixed flags of each, in order ([xcleaves]) — with directly
+   nested connections of the same kind merged and one-element series unwrapped.
+   The values are carried by the number tokens; that the scanner turns the printed characters into these tokens (with every number
+   rounded to the printed precision) is validated on every generated circuit by the correspondence check of C03 (evaluated in Coq),
+   not proved. *)
+Theorem C03_extended_round_trip_tokens :
+  forall reg, syms_unique reg = true ->
+  forall pf c n', xpconn reg pf c = Some n' -> (2 * pf <= depth_budget)%nat ->
+  parse_tokens reg (xctoks reg pf c) = Ok (top n') /\ xcleaves (top n') = xcleaves c.
+Proof. exact ext_round_trip_tokens. Qed.
+Print Assumptions C03_extended_round_trip_tokens.
+
+(* the step that carries the values: handed the label, values, limits and fixed flags of a reachable in-limits state of its class
+   (what the parser read), the constructor sequence of the parser (Class( **values), set_label, _set_limits in its collision-free order,
+   set_fixed) returns exactly that state *)
+Theorem C03_constructor_rebuilds_the_element :
+  forall ci r s, wf_cls (r_cls r) = true -> Inv (r_cls r) s -> within_limits (epars s) = true ->
+  build_element ci r (defs_of s) = Ok (NE ci s (r_subdefaults r)).
+Proof. exact build_exact. Qed.
+Print Assumptions C03_constructor_rebuilds_the_element.
+
+(* non-vacuity: every built-in class without sub-circuits is admitted at its defaults (22 classes), and a labelled, fixed, re-limited
+   resistor in series with a parallel connection that holds a nested series is read back element by element *)
+Definition c03_ext_example : conn :=
+  let dflt ci := match nth_error builtin_registry ci with Some r => fresh (r_cls r) | None => mkE [] [] end in
+  let rct := mkE [99; 116]%N [(0%N, mkP (Fin (50 # 1)) (Fin (1 # 2)) PInf true)] in
+  (Ser [NE 11 rct []; NC (Par [NE 0 (dflt 0) []; NC (Ser [NE 11 (dflt 11) []; NC (Ser [NE 19 (dflt 19) []])])])])%nat.
+Theorem C03_extended_round_trip_applies :
+  syms_unique builtin_registry = true /\
+  length (filter (fun r => elem_okb r (fresh (r_cls r))) builtin_registry) = 22%nat /\
+  (match xpconn builtin_registry 12 c03_ext_example with
+   | Some n => list_eqb Nat.eqb (map fst (xcleaves (top n))) [11; 0; 11; 19]%nat
+               && match top n with Ser [NE _ s _; NC (Par [_; NC (Ser [_; _])])] => list_eqb N.eqb (elabel s) [99; 116]%N | _ => false end
+   | None => false end) = true.
+Proof. vm_compute. repeat split. Qed.
+Print Assumptions C03_extended_round_trip_applies.
+
+(* NOT YET PROVED for the extended syntax at the level of characters and for container elements (full statements kept visible):
    roundtrip           : forall reg d t, wf_registry reg -> wf_tree reg t -> printable t -> within_limits t -> limits_distinct d t ->
                          exists t', parse reg (serialize reg d t) = Ok t' /\ conn_close (norm (round d t)) (norm t').
    reserialize_fixpoint: serialize reg d (norm (round d t)) parses to a tree that serialises to the same text.
